@@ -66,6 +66,12 @@ static void dealloc(bintree_node_t *p)
 	}
 	if (i >= 1 && i <= n && !freed[i]) { freed[i] = 1; memset(nodes[i], 0xDD, sizeof(tn_t)); free(blocks[i]); }
 }
+static int flog[MAXN + 1], nflog;
+static void dealloc2(bintree_node_t *p) { int i = idx(p); flog[nflog++] = i; if (i >= 1 && i <= n && !freed[i]) { freed[i] = 1; memset(nodes[i], 0xDD, sizeof(tn_t)); free(blocks[i]); } }
+/* the typed wrappers the header generates for a user's node type: what application code actually calls */
+static inline tn_t *tw_from(bintree_node_t *p) { return p ? containerof(p, tn_t, node) : NULL; }
+static inline bintree_node_t *tw_to(tn_t *t) { return t ? &t->node : NULL; }
+BINTREE_DECLARE_INLINE_WRAPPERS(tw, tn_t, tw_from, tw_to, dealloc2)
 static void run_mode(const char *mode)
 {
 	bintree_iterator_t it;
@@ -78,15 +84,18 @@ static void run_mode(const char *mode)
 		emit_step(0);
 	} else {
 		bintree_node_t *p;
-		if (!strcmp(mode, "in")) p = bintree_iterate_in_order(&it, root);
-		else if (!strcmp(mode, "pre")) p = bintree_iterate_pre_order(&it, root);
-		else if (!strcmp(mode, "post")) p = bintree_iterate_post_order(&it, root);
+		static unsigned altw;
+		int typed = altw++ & 1;            /* alternate runs go through the header's typed wrappers */
+		tn_t *troot = n ? nodes[1] : NULL;
+		if (!strcmp(mode, "in")) p = typed ? tw_to(tw_iterate_in_order(&it, troot)) : bintree_iterate_in_order(&it, root);
+		else if (!strcmp(mode, "pre")) p = typed ? tw_to(tw_iterate_pre_order(&it, troot)) : bintree_iterate_pre_order(&it, root);
+		else if (!strcmp(mode, "post")) p = typed ? tw_to(tw_iterate_post_order(&it, troot)) : bintree_iterate_post_order(&it, root);
 		else p = bintree_iterate_list(&it, root, is_list);
 		int guard = 3 * n + 5;
 		for (;;) {
 			emit_step(idx(p));
 			if (!p || !guard--) break;
-			p = bintree_next(&it);
+			p = typed ? tw_to(tw_next(&it)) : bintree_next(&it);
 		}
 		/* asking again after the end: still the end, the tree still as it was */
 		for (int again = 0; again < 2 && !p; again++) { p = bintree_next(&it); emit_step(idx(p)); }
@@ -94,14 +103,14 @@ static void run_mode(const char *mode)
 	teardown();
 }
 /* bintree_free_left / bintree_free_right: the subtree goes, the parent's link is cleared, the rest is untouched */
-static int flog[MAXN + 1], nflog;
-static void dealloc2(bintree_node_t *p) { int i = idx(p); flog[nflog++] = i; if (i >= 1 && i <= n && !freed[i]) { freed[i] = 1; memset(nodes[i], 0xDD, sizeof(tn_t)); free(blocks[i]); } }
 static void run_freesub(int right)
 {
+	static unsigned alt;
 	if (!n) return;
 	build();
 	nflog = 0;
-	if (right) bintree_free_right(&nodes[1]->node, dealloc2); else bintree_free_left(&nodes[1]->node, dealloc2);
+	if (alt++ & 1) { if (right) tw_free_right(nodes[1]); else tw_free_left(nodes[1]); }
+	else if (right) bintree_free_right(&nodes[1]->node, dealloc2); else bintree_free_left(&nodes[1]->node, dealloc2);
 	printf("{\"e\":\"FreeSub\",\"side\":\"%s\",\"n\":%d,", right ? "right" : "left", n);
 	arr("left", L); printf(","); arr("right", R); printf(",\"out\":[");
 	for (int i = 0; i < nflog; i++) printf("%s%d", i ? "," : "", flog[i]);
